@@ -94,7 +94,7 @@ def main():
         }],
         "checks": [],
         "not_applicable": [],
-        "notes": "See DESIGN.md. Evidence files are rewritten by every run of ./check. known_findings.json lists fixed defects (13 fix: commits in /repo).",
+        "notes": "See DESIGN.md. Evidence files are rewritten by every run of ./check. known_findings.json lists the one open finding and the repaired defects (19 fix: commits in /repo). tools/seeded.py runs the checks against the seeded changes under /verif/seeded (DESIGN.md section 9).",
     }
     for pid in sorted(CLAIMED):
         cat, tech, text, note, ref = CLAIMED[pid]
